@@ -146,6 +146,8 @@ func sharedWrites(p *Prog, fn *ssa.Function, cfgField map[*types.Var]*types.Name
 
 func runC15(c *Ctx) {
 	p := c.P
+	// clauses this property shares with others (see DESIGN.md section 6a)
+	defer c.ImportRules("C14", "C14.1")
 	cfg := configTypes(p)
 	cfgField := structOfField(p, cfg)
 	var cfgNames []string
